@@ -708,7 +708,12 @@ def _want_addr(vla, local, fpic, tls, func, defn, static):
         # a symbol with internal linkage that is defined here cannot be interposed: RIP-relative is as good as the GOT
         return 'got', (('rip',) if (static and defn) else ()), 'pic/%s-%s' % (d, 'function' if func else 'object')
     if tls:
-        return 'tls-le', (), 'tls/' + d
+        # local-exec (a link-time constant offset from the thread pointer) exists only for a variable that is part of the executable's own TLS block: one defined
+        # in this unit.  A thread-local that is only declared here may be defined by a shared object -- its offset is known at load time only: initial-exec
+        # (the linker relaxes it to local-exec when the definition turns out to be in the executable); the general-dynamic call is correct everywhere
+        if defn:
+            return 'tls-le', ('tls-ie', 'tls-gd'), 'tls/' + d
+        return 'tls-ie', ('tls-gd',), 'tls/' + d
     if func:
         return ('rip' if defn else 'got'), (('got',) if defn else ()), 'function/' + d
     return 'rip', (), 'object/' + d
@@ -716,8 +721,8 @@ def _want_addr(vla, local, fpic, tls, func, defn, static):
 
 def r154(cg, rep):
     rep.rule('R15.4', 'gen_addr(ND_VAR) address forms: VLA -> pointer loaded from the frame; local -> lea off(%rbp); -fPIC and thread-local -> general-dynamic '
-             'sequence (for every thread-local variable, defined here or not); -fPIC -> GOT; thread-local -> local-exec; function without a definition in '
-             'this unit -> GOT; otherwise RIP-relative', floor=14)
+             'sequence (for every thread-local variable, defined here or not); -fPIC -> GOT; thread-local defined in this unit -> local-exec, only declared here (it may live in a '
+             'shared object) -> initial-exec; function without a definition in this unit -> GOT; otherwise RIP-relative', floor=14)
     _need(cg.cu, CGU, 'gen_addr')
     fline = cg.cu.fn('gen_addr').line
     ag = Agg(rep, 'R15.4', CGU, 'gen_addr')
@@ -785,6 +790,9 @@ def r154(cg, rep):
                 msg = ''
                 if form != want and form not in also:
                     msg = 'for a %s the code generator forms a %s; required: %s' % (_cell_doc(cell), FORM_DOC[form], FORM_DOC[want])
+                    if want == 'tls-ie':
+                        msg += (' -- the variable is not defined in this unit (`extern _Thread_local`): when a shared object defines it, `x@tpoff` is not a link-time constant and '
+                                'ld rejects the unit (unresolvable R_X86_64_TPOFF32 relocation)')
                     if want == 'tls-gd':
                         msg += ' -- local-exec/GOT forms of a thread-local address cannot be linked into a shared object or address the wrong storage'
                 ag.note(key, form == want or form in also, msg, sl, facts)
@@ -870,9 +878,20 @@ def r153_function(pe, rep):
     ag = Agg(rep, 'R15.3', PU, 'function')
     lk = Agg(rep, 'R15.8', PU, 'function')          # linkage across redeclarations
     npaths = 0
+    # the states an earlier declaration can have left: those that sequences of declarations and file-scope references produce (every flag of the Obj concrete,
+    # also flags this module does not know); if they cannot be computed, every combination of the four flags the rules below read
+    try:
+        reach = _reachable_fn_states(pe)
+    except AnalysisBroken:
+        reach = None
+    need = ('is_static', 'is_inline', 'is_root', 'is_definition')
+    if reach and all(all(isinstance(dict(st).get(k), int) for k in need) for st in reach):
+        olds0 = [dict(st) for st in reach]
+    else:
+        olds0 = list(_bits(need))
     for isdef in (0, 1):
         for attr in _bits(('is_static', 'is_inline', 'is_extern')):
-            olds = [None] + list(_bits(('is_static', 'is_inline', 'is_root', 'is_definition')))
+            olds = [None] + olds0
             for old in olds:
                 if old is not None:
                     # states function() itself can have produced earlier; an existing root mark on a static inline function
@@ -989,6 +1008,202 @@ def r153_function(pe, rep):
     lk.flush(fline)
 
 
+def _decl_words(attr, isdef):
+    w = [k[3:] for k in ('is_static', 'is_extern', 'is_inline') if attr[k]]
+    return '%s int f(void)%s' % (' '.join(w), '{..}' if isdef else ';') if w else 'int f(void)%s' % ('{..}' if isdef else ';')
+
+
+def _fn_stepper(pe):
+    """(ATTRS, step): step(state, attr, isdef) applies function() to one more file-scope declaration of a function.  state: None (no earlier declaration) or a
+    tuple of (field, int) pairs -- every integer field of the Obj, also ones this module does not know; returns the list of states after function() (one per
+    returning path; none when the declaration is diagnosed), or None when the Obj was not found"""
+    if hasattr(pe, 'c15_step'):
+        return pe.c15_step
+    ATTRS = [a for a in _bits(('is_static', 'is_inline', 'is_extern')) if not (a['is_static'] and a['is_extern'])]
+    its = {}
+
+    def interp_for(isdef):
+        if isdef in its:
+            return its[isdef]
+
+        def h_find(it, ctx, n, args):
+            return ctx.c15_old
+
+        def h_equal(it, ctx, n, args):
+            if args[0] is ctx.c15_tok and args[1] == '{':
+                return isdef
+            if args[0] is ctx.c15_tok and isinstance(args[1], str):
+                return 0
+            return _fresh_bool(ctx, 'equal')
+
+        def h_consume(it, ctx, n, args):
+            if args[2] == ';':
+                return 0 if isdef else 1
+            return _fresh_bool(ctx, 'consume')
+
+        def h_decl(it, ctx, n, args):
+            ty = Obj('Type', lazy=True, label='ty')
+            ty.fields['name'] = Obj('Token', lazy=True, label='ty.name')
+            ty.fields['return_ty'] = _tyobj(pe.cg, 'ty.return_ty', 'int')
+            ty.fields['is_variadic'] = 0
+            ty.meta['cat'] = 'func'
+            return ty
+
+        def h_body(it, ctx, n, args):
+            return Obj('Node', lazy=True, label='body')
+        its[isdef] = pe.interp(('function', 'new_gvar', 'new_var'), opaque=('create_param_lvars', 'resolve_goto_labels'),
+                               cut={'find_func': h_find, 'equal': h_equal, 'consume': h_consume, 'declarator': h_decl, 'compound_stmt': h_body},
+                               globals_={'current_fn': 0})
+        return its[isdef]
+    cache = {}
+
+    def step(state, attr, isdef):
+        """state: None (no earlier declaration) or a tuple of (field, int) pairs; returns the list of states after function() (one per returning path), or None"""
+        key = (state, tuple(sorted(attr.items())), isdef)
+        if key in cache:
+            return cache[key]
+        it = interp_for(isdef)
+
+        def mk(ctx):
+            ctx.c15_tok = Obj('Token', lazy=True, label='tok')
+            if state is None:
+                ctx.c15_old = 0
+            else:
+                o = Obj('Obj', lazy=True, label='earlier-declaration')
+                o.fields.update(dict(state))
+                ctx.c15_old = o
+            a = Obj('VarAttr', lazy=True, label='attr')
+            a.fields.update(attr)
+            return [ctx.c15_tok, Obj('Type', lazy=True, label='basety'), a]
+        res = _explore(it, 'function', mk)
+        outs = []
+        for ctx, out in res:
+            if out[0] != 'ret':
+                continue
+            f = _final(it, ctx.globals.get('globals')) if state is None else ctx.c15_old
+            if not isinstance(f, Obj) or (state is None and f.lazy):
+                outs = None
+                break
+            st = {}
+            for k, v in f.fields.items():
+                v = _final(it, v)
+                if isinstance(v, bool):
+                    v = int(v)
+                if isinstance(v, int) and k not in ('next',) and (k.startswith('is_') or v in (0, 1)):
+                    st[k] = v
+            outs.append(tuple(sorted(st.items())))
+        cache[key] = outs
+        return outs
+    pe.c15_step = (ATTRS, step)
+    return pe.c15_step
+
+
+def _reachable_fn_states(pe):
+    """every state of a function Obj that sequences of file-scope declarations (and file-scope references, which set is_root) can produce; None if not computable"""
+    ATTRS, step = _fn_stepper(pe)
+    seen, todo = [], []
+    for a in ATTRS:
+        for d in (0, 1):
+            r = step(None, a, d)
+            if r is None:
+                return None
+            todo += r
+    while todo:
+        st = todo.pop()
+        if st in seen:
+            continue
+        seen.append(st)
+        if len(seen) > 200:
+            return None
+        fl = dict(st)
+        if fl.get('is_root') == 0:
+            todo.append(tuple(sorted(dict(fl, is_root=1).items())))
+        for a in ATTRS:
+            for d in ((0, 1) if not fl.get('is_definition') else (0,)):
+                r = step(st, a, d)
+                if r is None:
+                    return None
+                todo += r
+    return seen
+
+
+def r158_sequences(pe, rep):
+    """function() applied to every sequence of two (and, starting from a plain `inline` declaration, three) file-scope declarations of one function, the Obj the
+    first application creates being handed -- with every flag it carries, also ones this module does not know -- to the next.  Oracle (C11 6.2.2p4/p5, 6.7.4p7):
+      first declaration `static`                                  -> internal linkage, whatever follows
+      no `static` and every declaration is `inline` without `extern` -> inline definition: no external definition is emitted (chibicc: is_static)
+      no `static` and some declaration is not `inline`, or is `extern` -> external definition: .globl, a liveness root
+      `static` after a declaration without it                       -> undefined (6.2.2p7) / diagnosed: not judged"""
+    u = pe.u
+    fline = u.fn('function').line
+    lk = Agg(rep, 'R15.8', PU, 'function')
+    ATTRS, step = _fn_stepper(pe)
+    n = 0
+    seqs = []
+    for a1 in ATTRS:
+        for a2 in ATTRS:
+            for d in ((0, 0), (1, 0), (0, 1)):
+                seqs.append(((a1, d[0]), (a2, d[1])))
+            if a1['is_inline'] and not a1['is_static'] and not a1['is_extern']:
+                for a3 in ATTRS:
+                    for d in ((0, 0, 0), (1, 0, 0), (0, 1, 0), (0, 0, 1)):
+                        seqs.append(((a1, d[0]), (a2, d[1]), (a3, d[2])))
+    for seq in seqs:
+        attrs = [a for a, d in seq]
+        if attrs[0]['is_static']:
+            want, cls = 1, 'static-first'
+        elif any(a['is_static'] for a in attrs[1:]):
+            continue
+        elif all(a['is_inline'] and not a['is_extern'] for a in attrs):
+            want, cls = 1, 'every-declaration-inline'
+        elif attrs[0]['is_inline'] and not attrs[0]['is_extern']:
+            want, cls = 0, 'inline-then-external-declaration'
+        else:
+            want, cls = 0, 'external-first'
+        states = [None]
+        broken = False
+        for a, d in seq:
+            nxt = []
+            for st in states:
+                r = step(st, a, d)
+                if r is None:
+                    broken = True
+                    break
+                for x in r:
+                    if x not in nxt:
+                        nxt.append(x)
+            if broken:
+                break
+            states = nxt
+        desc = ' '.join(_decl_words(a, d) for a, d in seq)
+        key = 'linkage/declaration-sequence/' + cls
+        if broken:
+            lk.undecided(key, 'the Obj function() works on was not found for `%s`' % desc, fline)
+            continue
+        for st in states:          # no state: a declaration of the sequence is diagnosed
+            n += 1
+            fl = dict(st)
+            facts = {'declarations': desc, 'function object at the end': {k: v for k, v in fl.items() if k.startswith('is_')}}
+            stt, root, isd = fl.get('is_static'), fl.get('is_root'), fl.get('is_definition')
+            if not isinstance(stt, int):
+                lk.undecided(key, 'is_static is not concrete after `%s`' % desc, fline)
+                continue
+            if want == 0:
+                msg = ('after `%s` the function has is_static=%d: not every declaration says `inline` without `extern`, so the definition is an external definition (C11 6.7.4p7) -- '
+                       '%s; the function is emitted .local (and only if referenced) and other translation units that call it fail to link'
+                       % (desc, stt, 'the linkage decided by the first declaration (`inline` alone: is_static) is never revised by a redeclaration' if cls.startswith('inline-then') else 'it has external linkage'))
+            else:
+                msg = ('after `%s` the function has is_static=%d: %s; it is emitted .globl and clashes with the definition of another translation unit'
+                       % (desc, stt, 'it has internal linkage (C11 6.2.2p4/p5)' if cls == 'static-first' else 'every declaration is `inline` without `extern`, so this is an inline definition that provides no external definition (C11 6.7.4p7)'))
+            lk.note(key, stt == want, msg, fline, facts)
+            if want == 0 and stt == 0:
+                lk.note('linkage/declaration-sequence/external-definition-is-root', root == 1, 'after `%s` the function has external linkage but is not a liveness root: it is not emitted unless referenced' % desc, fline, facts)
+            lk.note('linkage/declaration-sequence/definition-flag', isd == int(any(d for a, d in seq)), 'after `%s` is_definition is %r' % (desc, isd), fline, facts)
+    if n < 100:
+        lk.undecided('linkage/declaration-sequence/evaluation', 'function() could be evaluated on %d declaration sequences only' % n, fline)
+    lk.flush(fline)
+
+
 def _judge_redeclared_linkage(it, ctx, lk, f, old, attr, isdef, st, fline, facts):
     """C11 6.2.2p4/p5, 6.7.4p7: the linkage of a function is fixed by its first declaration.  A later declaration without `static`
     (plain, extern, inline) inherits internal linkage; a later `inline` does not turn a function that already has external linkage
@@ -1057,8 +1272,11 @@ def r153_primary(pe, rep, root_marks_permanent, linkage_roots_hold):
             return 0          # the token is an ordinary identifier: none of the keywords / punctuators primary() tests for
         return _fresh_bool(ctx, 'equal')
     nulls = []
+    states = _static_states(pe)
+    # outside the initialiser of a static object the parser-context flags have their program-start value (R15.6 static-context/ends-with-the-initialiser)
+    s0 = dict(states['initial']) if states else {}
     it = pe.interp(('primary',), opaque=('generic_selection', 'new_ulong'), cut={'find_var': h_findvar, 'equal': h_equal, 'strarray_push': None, 'new_var_node': None},
-                   globals_={'current_fn': lambda ctx: ctx.c15_cf0}, on_null_deref=lambda it_, n: nulls.append(n.line))
+                   globals_=dict(s0, current_fn=lambda ctx: ctx.c15_cf0), on_null_deref=lambda it_, n: nulls.append(n.line))
     n = 0
     for inside in (0, 1):
         for callee in _bits(('is_definition', 'is_static', 'is_inline', 'is_root')):
@@ -1129,6 +1347,95 @@ def r153_primary(pe, rep, root_marks_permanent, linkage_roots_hold):
     if n == 0:
         raise AnalysisBroken('primary(): the identifier arm was not reached')
     ag.flush(fline0)
+
+
+def _static_states(pe):
+    """parser-context states of r156_static_context (evaluated once, silently; R15.6 reports them), or None"""
+    if not hasattr(pe, 'c15_states'):
+        pe.c15_states, pe.c15_states_err = None, None
+        try:
+            _need(pe.u, PU, 'gvar_initializer', 'postfix')
+            pe.c15_states = r156_static_context(pe, _Scratch(), None)
+        except AnalysisBroken as e:
+            pe.c15_states_err = str(e)
+    return pe.c15_states
+
+
+def r1510(pe, rep):
+    """An object with static storage duration is emitted whether or not the function whose body declares it is (R15.1: emit_data emits every
+    definition; R15.6: block-scope statics and static compound literals are anonymous globals).  So a function named in the initialiser of such
+    an object is referenced by something that is always emitted: the reference must make it a liveness root -- recording it on the refs list of
+    the enclosing function keeps it alive only if that function happens to be live.  primary() is evaluated in exactly the parser context
+    (context flags, current_fn) gvar_initializer() is evaluated to establish while it has the initialiser parsed inside a function body."""
+    rep.rule('R15.10', 'a function referenced in the initialiser of a static-storage object declared inside a function body (block-scope static, static compound literal) is made a '
+             'liveness root: the object is emitted unconditionally, so its relocation must not depend on the liveness of the enclosing function', floor=2)
+    u = pe.u
+    _need(u, PU, 'primary', 'gvar_initializer')
+    fline = u.fn('primary').line
+    ag = Agg(rep, 'R15.10', PU, 'primary')
+    states = _static_states(pe)
+    if not states or states.get('skip-static-initialiser') or not states['enclosing-function']:
+        ag.undecided('static-initialiser-reference/context', 'the parser context gvar_initializer() establishes while the initialiser of a static object is parsed is not known: %s'
+                     % (getattr(pe, 'c15_states_err', None) or 'no region recognised'), fline)
+        ag.flush(fline)
+        return
+    E = pe.E
+    s0 = states['initial']
+
+    def h_findvar(it, ctx, n, args):
+        return ctx.c15_sc
+
+    def h_equal(it, ctx, n, args):
+        if args[0] is ctx.c15_tok:
+            return 0
+        return _fresh_bool(ctx, 'equal')
+    nulls = []
+    it = pe.interp(('primary',), opaque=('generic_selection', 'new_ulong'), cut={'find_var': h_findvar, 'equal': h_equal, 'strarray_push': None, 'new_var_node': None},
+                   globals_=dict({v: (lambda ctx, v=v: ctx.c15_state[v]) for v in s0}, current_fn=lambda ctx: ctx.c15_cf0), on_null_deref=lambda it_, n: nulls.append(n.line))
+    n = 0
+    ag.note('static-initialiser-reference/context-evaluated', True)
+    for st, cf in states['enclosing-function']:
+        if cf == 'other':
+            ag.undecided('static-initialiser-reference/context', 'while the initialiser of a block-scope static object is parsed current_fn is neither the enclosing function nor NULL', fline)
+            continue
+        for isdef in (0, 1):
+            def mk(ctx, st=st, cf=cf, isdef=isdef):
+                ctx.c15_state = dict(s0, **st)
+                ctx.c15_tok = Obj('Token', lazy=True, label='tok')
+                ctx.c15_tok.fields['kind'] = E['TK_IDENT']
+                v = Obj('Obj', lazy=True, label='callee')
+                v.fields.update(dict(is_definition=isdef, is_static=1, is_inline=1, is_root=0, is_function=1, is_local=0, name=Sym('callee.name', 'char *')))
+                ctx.c15_callee = v
+                sc = Obj('VarScope', lazy=True, label='sc')
+                sc.fields['var'] = v
+                ctx.c15_sc = sc
+                ctx.c15_cf0 = Obj('Obj', lazy=True, label='caller') if cf == 'kept' else 0
+                return [Sym('rest', 'Token **'), ctx.c15_tok]
+            del nulls[:]
+            res = _explore(it, 'primary', mk)
+            rets = [(c, o) for c, o in res if o[0] == 'ret']
+            key = 'static-initialiser-reference/marks-root'
+            if not rets:
+                if nulls:
+                    ag.note(key, False, 'primary() dereferences a NULL pointer when a function is named in the initialiser of a block-scope static object', nulls[0])
+                else:
+                    ag.undecided(key, 'primary() has no returning path for an identifier that names a function (context: %s)' % _state_doc(st), fline)
+                continue
+            for ctx, out in rets:
+                n += 1
+                root_now = _final(it, ctx.c15_callee.fields.get('is_root'))
+                evl = [e[3] for e in ctx.events if e[0] in ('call', 'store') and len(e) > 3 and isinstance(e[3], int)]
+                facts = {'parser context': dict(s0, **st), 'current_fn': 'the enclosing function' if cf == 'kept' else 'NULL', 'path': ctx.trail[-6:],
+                         'events': [repr(e[:3]) for e in ctx.events if e[0] in ('call', 'fstore')][:8]}
+                ag.note(key, root_now == 1,
+                        'a static inline function named in the initialiser of a block-scope static object (parser context while gvar_initializer() has it parsed: %s; current_fn: %s) '
+                        'is not made a liveness root (is_root=%r): it is only recorded as referenced by the enclosing function.  The static object is emitted unconditionally '
+                        '(`.quad f` in .data), the function only if the enclosing function is live: `static inline int f(void){..} static inline int g(void){ static int (*p)(void) = f; ..}` '
+                        'with g unreferenced leaves an undefined reference to f at link time' % (_state_doc(dict(s0, **st)), 'the enclosing function' if cf == 'kept' else 'NULL', root_now),
+                        evl[0] if evl else fline, facts)
+    if n == 0:
+        raise AnalysisBroken('primary(): the identifier arm was not reached in the context of a static initialiser')
+    ag.flush(fline)
 
 
 def r153_mark_live(pe, rep):
@@ -1395,6 +1702,7 @@ def r153(pe, rep):
             rep.undecided('R15.3', '%s:%s:analysis' % (PU, fns[0]), 'part of the rule could not be evaluated: %s' % e)
     part(('function', 'new_gvar', 'find_func'), lambda: r153_function(pe, rep))
     part(('find_func',), lambda: r158_find_func(pe, rep))
+    part(('function', 'new_gvar', 'find_func'), lambda: r158_sequences(pe, rep))
     keep = [o for o in rep.obs if o['key'] == 'R15.3:%s:function:is_root/redeclaration-keeps-root-mark' % PU]
     permanent = bool(keep) and all(o['verdict'] == 'holds' for o in keep)
     lk = [o for o in rep.obs if o['key'] in ('R15.3:%s:function:is_root/first-declaration' % PU, 'R15.3:%s:function:is_root/redeclaration' % PU)]
@@ -1411,6 +1719,7 @@ def r155_global_variable(pe, rep):
     fline = u.fn('global_variable').line
     ag = Agg(rep, 'R15.5', PU, 'global_variable')
     n = 0
+    built = pe.c15_built = {}       # (storage, thread-local, initialised) -> the flags global_variable() gives the object
     for storage in ('plain', 'static', 'extern'):
         for tls in (0, 1):
             for has_init in (0, 1):
@@ -1479,7 +1788,18 @@ def r155_global_variable(pe, rep):
                         ag.note('is_tls/%s' % ('thread-local' if tls else 'ordinary'), F('is_tls') == tls,
                                 'is_tls is %r for %s object: it would be placed in %s' % (F('is_tls'), 'a _Thread_local' if tls else 'an ordinary', '.data/.bss and shared by all threads' if tls else 'a TLS section'), fline, facts)
                         want_t = int(not has_init and storage != 'extern' and not tls)
-                        ag.note('is_tentative/%s' % cls, F('is_tentative') == want_t,
+                        bf = {k: F(k) for k in ('is_definition', 'is_static', 'is_tls', 'is_tentative')}
+                        if all(isinstance(x, int) for x in bf.values()):
+                            built.setdefault((storage, tls, has_init), {k: int(bool(x)) for k, x in bf.items()})
+                        tl_ok = False
+                        if tls and not has_init and storage != 'extern' and F('is_tentative') == 1 and all(isinstance(x, int) for x in bf.values()):
+                            # `_Thread_local int x;` may be declared again (with an initialiser): flagging it tentative is one way to have scan_globals merge the two,
+                            # provided emit_data never turns that state into a common symbol
+                            ok_, why_ = _emitted_where_declared(pe.cg, dict({k: int(bool(x)) for k, x in bf.items()}, is_function=0), 0)
+                            if ok_ is None:
+                                ag.undecided('is_tentative/%s' % cls, 'a thread-local object is flagged is_tentative and emit_data could not be evaluated on that state: %s' % why_, fline)
+                            tl_ok = bool(ok_)
+                        ag.note('is_tentative/%s' % cls, F('is_tentative') == want_t or tl_ok,
                                 'is_tentative is %r for `%s`: only a definition without initialiser that is neither extern nor thread-local is tentative (a wrongly tentative object becomes a .comm symbol or is dropped as redundant; a wrongly non-tentative one clashes with its later real definition)' % (F('is_tentative'), cls), fline, facts)
                         inits = [e for e in ctx.events if e[0] == 'init']
                         ag.note('initializer-parsed', (len(inits) == 1 and inits[0][1] is v) if has_init else not inits,
@@ -1518,6 +1838,11 @@ def r155_scan_globals(pe, rep):
                 o = Obj('Obj', lazy=False, label='%s%d:%s' % (nm, idx, k))
                 o.fields.update(dict(name=nm, is_function=int(k == 'F'), is_definition=int(k != 'E'), is_tentative=int(k == 'T'), is_static=static, is_tls=0,
                                      is_local=0, is_root=0, next=0))
+                if k != 'F':
+                    # a complete scalar type (the merging of array types is r155_merge's subject)
+                    ity = Obj('Type', lazy=False, label='int')
+                    ity.fields.update(dict(kind=pe.E['TY_INT'], size=4, align=4, is_unsigned=0, base=0, array_len=0, origin=0, is_atomic=0))
+                    o.fields['ty'] = ity
                 objs.append(o)
             for a, b in zip(objs, objs[1:]):
                 a.fields['next'] = b
@@ -1588,6 +1913,159 @@ def r155_scan_globals(pe, rep):
     ag.flush(fline)
 
 
+def r155_merge(pe, rep):
+    """Several declarations of one file-scope object that each define it (C11 6.9.2p2) denote ONE object: exactly one definition reaches emit_data,
+    it is the initialised one if there is one, and it has the composite type (6.2.7p3: an array of unknown size declared again with a size has that size;
+    6.9.2p5: an array still incomplete at the end of the unit gets one element).  Evaluated on concrete lists as global_variable() is evaluated to build them:
+    thread-local objects with the flags the parser gives `_Thread_local T x;` / `_Thread_local T x = i;`, tentative arrays with an incomplete / complete type."""
+    u = pe.u
+    fline = u.fn('scan_globals').line
+    ag = Agg(rep, 'R15.5', PU, 'scan_globals')
+    E = pe.E
+    built = getattr(pe, 'c15_built', None) or {}
+    FL = {'L': built.get(('plain', 1, 0), dict(is_definition=1, is_static=0, is_tls=1, is_tentative=0)),
+          'M': built.get(('plain', 1, 1), dict(is_definition=1, is_static=0, is_tls=1, is_tentative=0)),
+          'T': built.get(('plain', 0, 0), dict(is_definition=1, is_static=0, is_tls=0, is_tentative=1)),
+          'A0': built.get(('plain', 0, 0), dict(is_definition=1, is_static=0, is_tls=0, is_tentative=1)),
+          'A5': built.get(('plain', 0, 0), dict(is_definition=1, is_static=0, is_tls=0, is_tentative=1))}
+    DOC = {'L': '_Thread_local int %s;', 'M': '_Thread_local int %s = 3;', 'T': 'int %s;', 'A0': 'int %s[];', 'A5': 'int %s[5];'}
+
+    def mktype(kind):
+        ity = Obj('Type', lazy=False, label='int')
+        ity.fields.update(dict(kind=E['TY_INT'], size=4, align=4, is_unsigned=0, base=0, array_len=0, origin=0, is_atomic=0))
+        if kind not in ('A0', 'A5'):
+            return ity
+        n_ = -1 if kind == 'A0' else 5
+        aty = Obj('Type', lazy=False, label='int[%s]' % ('' if n_ < 0 else n_))
+        aty.fields.update(dict(kind=E['TY_ARRAY'], size=4 * n_, align=4, base=ity, array_len=n_, is_unsigned=0, origin=0, is_atomic=0))
+        return aty
+
+    def m_array_of(it, ctx, nd, args):
+        b, ln = _final(it, args[0]), _final(it, args[1])
+        if not isinstance(b, Obj) or not isinstance(ln, int):
+            return it.lazy_value('Type *', ctx.fresh('array_of'))
+        t = Obj('Type', lazy=False, label='array_of')
+        bs = _final(it, b.fields.get('size'))
+        t.fields.update(dict(kind=E['TY_ARRAY'], size=it.arith('*', bs, ln, 'int') if not isinstance(bs, int) else bs * ln, align=b.fields.get('align'), base=b, array_len=ln,
+                             is_unsigned=0, origin=0, is_atomic=0))
+        return t
+    it = pe.interp(('scan_globals',), cut={'array_of': m_array_of}, globals_={'globals': lambda ctx: ctx.c15_list[0] if ctx.c15_list else 0})
+    lists = []
+    for L in (1, 2, 3):
+        for ks in itertools.product(('L', 'M', 'T'), repeat=L):
+            if ks.count('M') <= 1 and ('L' in ks or 'M' in ks) and not (L == 3 and 'T' in ks and ks[1] != 'T'):
+                lists.append([('y' if k == 'T' else 'x', k) for k in ks])
+        lists += [[('x', k) for k in ks] for ks in itertools.product(('A0', 'A5'), repeat=L)]
+    lists += [[('x', 'A0'), ('y', 'T'), ('x', 'A5')], [('y', 'A5'), ('x', 'A0')]]
+    emitted = {}
+    n = 0
+    for lst in lists:
+        def mk(ctx, lst=lst):
+            objs = []
+            for idx, (nm, k) in enumerate(lst):
+                o = Obj('Obj', lazy=False, label='%s%d:%s' % (nm, idx, k))
+                o.fields.update(dict(name=nm, is_function=0, is_local=0, is_root=0, next=0, ty=mktype(k), align=4, init_data=_nonnull_sym(ctx, 'image', 'char *') if k == 'M' else 0, rel=0))
+                o.fields.update(FL[k])
+                objs.append(o)
+            for a, b in zip(objs, objs[1:]):
+                a.fields['next'] = b
+            ctx.c15_list = objs
+            return []
+        # `globals` is in reverse order of declaration (new_gvar pushes at the head)
+        desc = ' '.join(DOC[k] % nm for nm, k in reversed(lst))
+        try:
+            res = _explore(it, 'scan_globals', mk)
+        except AnalysisBroken as e:
+            ag.undecided('merge/evaluation', 'scan_globals could not be evaluated on `%s`: %s' % (desc, e), fline)
+            continue
+        rets = [(c, o) for c, o in res if o[0] == 'ret']
+        if len(rets) != 1 or len(res) != 1:
+            ag.undecided('merge/evaluation', 'scan_globals has %d paths (%d returning) on the concrete declarations `%s`' % (len(res), len(rets), desc), fline)
+            continue
+        ctx, out = rets[0]
+        objs = ctx.c15_list
+        outl, cur, okc = [], _final(it, ctx.globals.get('globals', objs[0])), True
+        while True:
+            cur = _final(it, cur)
+            if isinstance(cur, int) and cur == 0:
+                break
+            if not isinstance(cur, Obj) or not any(cur is o for o in objs) or any(cur is o for o in outl):
+                okc = False; break
+            outl.append(cur)
+            cur = cur.fields.get('next', 0)
+        if not okc:
+            ag.undecided('merge/evaluation', 'the list scan_globals leaves for `%s` is not a sub-list of its input' % desc, fline)
+            continue
+        n += 1
+        kept = [i for i, o in enumerate(objs) if any(o is x for x in outl)]
+        facts = {'declarations': desc, 'globals (head first)': [o.label for o in objs], 'after scan_globals': [o.label for o in outl]}
+        others = [i for i, (nm, k) in enumerate(lst) if nm == 'y']
+        ag.note('merge/other-objects-kept', not others or len([i for i in others if i in kept]) == 1, 'on `%s` `y` is not left with exactly one definition' % desc, fline, facts)
+        xs = [i for i, (nm, k) in enumerate(lst) if nm == 'x']
+        left = [i for i in xs if i in kept]
+        kinds = [lst[i][1] for i in xs]
+        if 'L' in kinds or 'M' in kinds:
+            if 'M' in kinds:
+                im = [i for i in xs if lst[i][1] == 'M'][0]
+                ag.note('thread-local/initialised-definition-kept', im in left, 'on `%s` the initialised definition of the thread-local object is removed' % desc, fline, facts)
+                ag.note('thread-local/no-initialiser-dropped-beside-definition', [i for i in left if i != im] == [],
+                        'on `%s` %d definition(s) of the thread-local `x` without initialiser reach emit_data next to its initialised definition: `_Thread_local T x;` may be followed by '
+                        '`_Thread_local T x = i;` like any file-scope object, both denote one object; the label `x:` is emitted in .tbss and again in .tdata (assembler: symbol `x\' is already defined)'
+                        % (desc, len([i for i in left if i != im])), fline, facts)
+            elif len(xs) > 1:
+                ag.note('thread-local/repeated-no-initialiser/one-survives', len(left) >= 1, 'on `%s` every declaration of the thread-local `x` is removed: it is never defined' % desc, fline, facts)
+                ag.note('thread-local/repeated-no-initialiser/only-one-survives', len(left) <= 1,
+                        'on `%s` %d definitions of the thread-local `x` reach emit_data: repeating `_Thread_local T x;` declares one object, but the label `x:` is emitted %d times in .tbss '
+                        '(assembler: symbol `x\' is already defined)' % (desc, len(left), len(left)), fline, facts)
+            else:
+                ag.note('thread-local/single-definition-kept', len(left) == 1, 'on `%s` the only definition of the thread-local `x` is removed' % desc, fline, facts)
+            for i in left:
+                o = objs[i]
+                fl = {k: _final(it, o.fields.get(k)) for k in ('is_definition', 'is_static', 'is_tls', 'is_tentative', 'is_function')}
+                hi = int(lst[i][1] == 'M')
+                if not all(isinstance(x, int) for x in fl.values()):
+                    ag.undecided('thread-local/survivor-emitted-where-declared', 'the flags of the surviving object are not concrete: %r' % fl, fline)
+                    continue
+                fl = {k: int(bool(x)) for k, x in fl.items()}
+                if not fl['is_definition'] or not fl['is_tls'] or fl['is_function']:
+                    ag.note('thread-local/survivor-emitted-where-declared', False, 'on `%s` the surviving object is no longer a thread-local definition: %r' % (desc, fl), fline, facts)
+                    continue
+                if not fl['is_tentative']:
+                    ag.note('thread-local/survivor-emitted-where-declared', True)      # inside the table R15.1 verifies
+                    continue
+                kk = (tuple(sorted(fl.items())), hi)
+                if kk not in emitted:
+                    emitted[kk] = _emitted_where_declared(pe.cg, fl, hi)
+                ok_, why_ = emitted[kk]
+                if ok_ is None:
+                    ag.undecided('thread-local/survivor-emitted-where-declared', 'emit_data could not be evaluated on the surviving object (%r): %s' % (fl, why_), fline)
+                else:
+                    ag.note('thread-local/survivor-emitted-where-declared', ok_, 'on `%s` the surviving thread-local object is flagged is_tentative; %s' % (desc, why_), fline, facts)
+        else:
+            if len(left) != 1:
+                continue        # R15.5 repeated-tentative/* (every list of tentative definitions) reports that
+            o = objs[left[0]]
+            ty = _final(it, o.fields.get('ty'))
+            sz = _final(it, ty.fields.get('size')) if isinstance(ty, Obj) else None
+            ln = _final(it, ty.fields.get('array_len')) if isinstance(ty, Obj) else None
+            facts['type of the surviving object'] = {'size': repr(sz), 'array_len': repr(ln)}
+            if not isinstance(sz, int):
+                ag.undecided('array-type/size-of-survivor', 'the size of the surviving object\'s type is not concrete on `%s`: %r' % (desc, sz), fline)
+                continue
+            if 'A5' in kinds:
+                ag.note('array-type/composite-type-of-survivor', sz == 20,
+                        'on `%s` the one object that reaches emit_data has a type of size %d: the declarations denote one object whose type is the composite type int[5] (C11 6.2.7p3/p4), 20 bytes. '
+                        'scan_globals keeps one of the tentative definitions without looking at the types, so the incomplete declaration `int x[]` (size = -sizeof(int)) decides the storage: '
+                        '`.comm x, -4` / `.zero -4` -- the assembler ignores the size and every reference to x is undefined at link time' % (desc, sz), fline, facts)
+            else:
+                ag.note('array-type/incomplete-array-completed', sz == 4 and (ln is None or ln == 1),
+                        'on `%s` the object reaches emit_data with a type of size %d: an array whose type is still incomplete at the end of the translation unit is defined with one element '
+                        '(C11 6.9.2p5, 4 bytes here); emit_data prints the negative size of the incomplete type (`.comm x, -4, 4`), the assembler ignores it and x is undefined at link time' % (desc, sz), fline, facts)
+    if n < 30:
+        ag.undecided('merge/evaluation', 'scan_globals could be evaluated on %d of %d declaration lists only' % (n, len(lists)), fline)
+    ag.flush(fline)
+
+
 def r155(pe, rep):
     rep.rule('R15.5', 'file-scope objects: is_definition / is_static / is_tls / is_tentative follow C11 6.9.2 from (storage class, _Thread_local, initialiser); '
              'scan_globals removes exactly the tentative definitions made redundant by another definition, keeps one of several tentative ones, keeps order, leaves the flags of every object as declared', floor=31)
@@ -1600,6 +2078,7 @@ def r155(pe, rep):
             rep.undecided('R15.5', '%s:%s:analysis' % (PU, fns[0]), 'part of the rule could not be evaluated: %s' % e)
     part(('global_variable', 'new_gvar'), lambda: r155_global_variable(pe, rep))
     part(('scan_globals',), lambda: r155_scan_globals(pe, rep))
+    part(('scan_globals',), lambda: r155_merge(pe, rep))
 
 
 # =============================================================================================
@@ -1926,12 +2405,14 @@ def r156_static_context(pe, rep, keep):
         return {v: _final(it, ctx.globals[v]) if v in ctx.globals else ctx.c15_state[v] for v in names}
 
     def h_region(it, ctx, nd, args):
-        ctx.emit('region', nd.callee(), snap(it, ctx), nd.line)
+        cf = _final(it, ctx.globals.get('current_fn', ctx.c15_cf))
+        ctx.emit('region', nd.callee(), snap(it, ctx), nd.line, 'kept' if cf is ctx.c15_cf else ('null' if isinstance(cf, int) and cf == 0 else 'other'))
         return it.lazy_value(nd.dtype or nd.type or 'void *', ctx.fresh('parsed'))
     it = pe.interp(('gvar_initializer',), opaque=('write_gvar_data',) + tuple(sorted(pure_readers - set(region_callees))), cut={f: h_region for f in region_callees},
-                   globals_={v: (lambda ctx, v=v: ctx.c15_state[v]) for v in names})
+                   globals_=dict({v: (lambda ctx, v=v: ctx.c15_state[v]) for v in names}, current_fn=lambda ctx: ctx.c15_cf))
     reentrant = 'gvar_initializer' in reach(region_callees)
-    result = {'initial': s0, 'regions': []}
+    # 'enclosing-function': what current_fn is while the initialiser is parsed, when gvar_initializer() is entered inside a function body
+    result = {'initial': s0, 'regions': [], 'enclosing-function': []}
     if not region_callees:
         ag.undecided('static-context/evaluation', 'gvar_initializer() calls no function that parses an initialiser (none of its callees reaches a reader of the parser context %s): '
                      'where the initialiser of a static object is parsed is not recognised' % names, fline)
@@ -1958,6 +2439,7 @@ def r156_static_context(pe, rep, keep):
 
             def mk(ctx, entry=entry):
                 ctx.c15_state = dict(entry)
+                ctx.c15_cf = Obj('Obj', lazy=True, label='enclosing-function')
                 v = Obj('Obj', lazy=True, label='var')
                 ty = Obj('Type', lazy=True, label='ty')
                 ty.fields['size'] = Sym('ty.size', 'int')
@@ -1993,6 +2475,8 @@ def r156_static_context(pe, rep, keep):
                     w = 'static-initialiser' if level == 0 else 'nested-static-initialiser'
                     if (w, st) not in result['regions'] and not (level > 0 and ('static-initialiser', st) in result['regions']):
                         result['regions'].append((w, st))
+                    if (st, e[4]) not in result['enclosing-function']:
+                        result['enclosing-function'].append((st, e[4]))
                     if reentrant and st not in done and st not in nxt:
                         nxt.append(st)
         todo = nxt
@@ -2309,6 +2793,7 @@ _LINK_LINES = [
     ('static', [_lk_opt('-static'), _lk_src('u1.c'), _lk_opt('-L', 'lib.d'), _lk_lib('-lfoo'), _lk_obj('o1.o'), _lk_wl('-z', 'now'), _lk_lib('-lm'), _lk_opt('-o', 'out.bin')]),
     ('shared', [_lk_opt('-shared', '-fPIC'), _lk_src('u1.c'), _lk_lib('-lfoo'), _lk_obj('lib.d/libq.so'), _lk_wl('-soname', 'libx.so.1'), _lk_opt('-o', 'libx.so')]),
     ('xlinker-group', [_lk_src('u1.c'), _lk_xl('--start-group'), _lk_lib('-lfoo'), _lk_lib('-lbar'), _lk_xl('--end-group')]),
+    ('search-directories', [_lk_opt('-Lfirst.d'), _lk_obj('o1.o'), _lk_opt('-L', 'second.d'), _lk_lib('-lfoo'), _lk_opt('-Lthird.d')]),
 ]
 _LK_START = ('crt1.o', 'crti.o', 'crtbegin.o', 'crtbeginS.o', 'crtbeginT.o', 'Scrt1.o')
 _LK_END_FILES = ('crtend.o', 'crtendS.o', 'crtn.o')
@@ -2331,7 +2816,7 @@ def r159(P, rep):
     from ..lib_c15 import LinkDriver
     rep.rule('R15.9', 'link sets: every position-sensitive word of the command line (inputs - a source input is represented by the object made from it -, -l<lib>, the words of -Wl,.. and -Xlinker ..) '
              'reaches the ld command line exactly as often as it was written and in command-line order relative to the others, after the start files and before the default libraries and end files '
-             '(ld resolves archives and applies positional options strictly left to right)', floor=2 * len(_LINK_LINES) - 2)
+             '(ld resolves archives and applies positional options strictly left to right); the user\'s -L directories reach ld in command-line order and before the built-in system directories', floor=2 * len(_LINK_LINES) - 2)
     mu = P.unit(MU)
     drv = LinkDriver(P, mu)
     ag = Agg(rep, 'R15.9', MU, 'main')
@@ -2412,6 +2897,42 @@ def r159(P, rep):
             ag.note(K + 'operands-in-command-line-order', True, '', line, facts)
         else:
             ag.note(K + verdict[0], False, '`%s`: %s' % (shown, verdict[1]), line, facts)
+        # ---- library search directories: the user's before the built-in ones, in command-line order -------------------------
+        udirs, flat = [], [x for kind, w, toks, cls in elems if kind == 'opt' for x in w]
+        for i, w in enumerate(flat):
+            if w == '-L' and i + 1 < len(flat):
+                udirs.append(flat[i + 1])
+            elif w.startswith('-L') and len(w) > 2:
+                udirs.append(w[2:])
+        if udirs:
+            S = 'search-path:'
+            texts = [t[1] if t[0] in ('str', 'file') else None for t in items]
+            upos, mine = [], set()
+            for d in udirs:
+                hit = [i for i, x in enumerate(texts) if (x == '-L' + d) or (x == d and i > 0 and texts[i - 1] == '-L')]
+                upos.append(hit)
+                for i in hit:
+                    mine.add(i)
+                    if texts[i] == d:
+                        mine.add(i - 1)
+            builtin = [i for i, x in enumerate(texts) if isinstance(x, str) and x.startswith('-L') and i not in mine]
+            lost = [d for d, h in zip(udirs, upos) if not h]
+            if lost:
+                ag.note(S + 'user-directory-dropped', False, '`%s`: the library directory -L%s does not reach the ld command line: -l<lib> operands are not searched there' % (shown, lost[0]), line, facts)
+            else:
+                firsts = [h[0] for h in upos]
+                ag.note(S + 'user-directories-in-command-line-order', firsts == sorted(firsts),
+                        '`%s`: the -L directories reach ld in another order (%s): ld searches them left to right, so a library present in two of them is taken from the wrong one'
+                        % (shown, ' '.join(udirs[k] for k in sorted(range(len(udirs)), key=lambda k: firsts[k]))), line, facts)
+                if not builtin:
+                    ag.undecided(S + 'user-directories-before-built-in', '`%s`: no built-in -L directory recognised on the ld command line' % shown, line)
+                else:
+                    late = [d for d, h in zip(udirs, upos) if h[0] > min(builtin)]
+                    ag.note(S + 'user-directories-before-built-in', not late,
+                            '`%s`: -L%s follows the driver\'s built-in system directories (%s ...) on the ld command line.  ld searches -L directories in the order given, so '
+                            '-l<lib> finds the system\'s copy of a library before the one in the directory the user named (cc convention: user -L directories are searched first); a '
+                            'program that links against its own build of a library whose name also exists in /usr/lib gets the wrong one or undefined references'
+                            % (shown, late[0] if late else '', _lk_show(items[min(builtin)])), line, facts)
         # ---- operands lie between the start files and the default libraries / end files ---------------------------------
         starts = [i for i, t in enumerate(items) if t[0] == 'file' and t[1] in _LK_START]
         ends = [i for i, t in enumerate(items) if (t[0] == 'file' and t[1] in _LK_END_FILES) or (t[0] == 'str' and t[1] in _LK_DEFAULT_LIBS)]
@@ -2472,7 +2993,7 @@ def run(P, rep, tier):
                        'main() + parse_args() + run_linker() on concrete link command lines (objects, archives, shared objects, C and assembler inputs, -l, -Wl, -Xlinker, interleaved options; default / -static / -shared), '
                        'observing only the argument vector of the ld process: every position-sensitive operand arrives once per mention, in command-line order, between start files and default libraries (R15.9). '
                        'Not decided: link results, run-time equivalence of the configurations, initialiser bytes (C05), prologue/epilogue (C06), the one redeclaration case the Obj flags '
-                       'cannot tell apart (`inline f` vs `static inline f` followed by a plain / extern declaration: C11 inline-definition merging), initial-exec TLS for extern thread-locals of shared objects.')
+                       'cannot tell apart (`inline f` vs `static inline f` followed by a plain / extern declaration: judged on declaration sequences instead, R15.8 declaration-sequence).')
     rep.assumptions += ['states never built by the parser are not judged (tentative with initialiser / thread-local / extern; local thread-local; non-static function that is not live)',
                         'one declarator per declaration in global_variable()/declaration(); a definition has `{` where a prototype has `;`',
                         'gas semantics: a symbol is local unless .globl; .comm is global unless preceded by .local; .L names stay out of the symbol table',
@@ -2491,6 +3012,7 @@ def run(P, rep, tier):
         return envs['pe']
     steps = [('R15.1', lambda: r151(cg, rep)), ('R15.2', lambda: r152(cg, rep)), ('R15.4', lambda: r154(cg, rep)),
              ('R15.3', lambda: r153(penv(), rep)), ('R15.5', lambda: r155(penv(), rep)), ('R15.6', lambda: r156(penv(), rep)),
+             ('R15.10', lambda: r1510(penv(), rep)),
              ('R15.7', lambda: r157(P, rep)), ('R15.9', lambda: r159(P, rep))]
     for rule, f in steps:
         try:
